@@ -57,68 +57,62 @@ def check_python(report):
     r1.check(len(rets) == 1 and pmatch("next(iter(self.options.Extensions[resource_pb2.resource].pattern), None)", rets[0].value) is not None,
              p, rp.node.lineno, ast.unparse(rets[0].value) if rets else "", "resource_path is the first declared pattern (or None)")
 
-    # ---- path_regex_str
+    # ---- path_regex_str: decided on the decision table of the normal form (loop / comprehension / generator, early return for the
+    # wildcard or a test afterwards, f-string / format / concatenation ... all give the same table)
+    from ..pymodel import nreturn, decision_leaves
+    from ..pynorm import norm_expr
     pr = m.member(mt, "path_regex_str")
     fn = pr.node
-    # a construction that pairs literals and names with zip() over the slices of a split loses the trailing literal
-    for c in calls(fn):
-        if isinstance(c.func, ast.Name) and c.func.id == "zip" and len(c.args) == 2:
-            srcs = [ast.unparse(a) for a in c.args]
-            src_fn = ast.unparse(fn)
-            if ".split(" in src_fn and ("[::2]" in src_fn and "[1::2]" in src_fn):
-                r2.violation(p, c.lineno, f"path_regex_str: {ast.unparse(c)}",
-                             "zip() over the literal/name slices of a regex split stops at the shorter list: the literal text after the last "
-                             "variable is dropped, so patterns ending in a literal (`users/{user}/profile`) parse strings they must reject")
+    pfi = m.func("gapic.schema.wrappers.MessageType.path_regex_str")
+    e = nreturn(m, pfi, keep={"PATH_ARG_RE"})
     r2.instance("construction")
-    old_node, _ = find_match("'^' + self.PATH_ARG_RE.sub(_ANYF_, self.resource_path or '') + '$'", fn)
-    if old_node is not None:
-        r2.violation(p, old_node.lineno, "path_regex_str: PATH_ARG_RE.sub over the raw pattern",
-                     "the literal text of the pattern is copied into the regex unescaped: a `.` delimiter (permitted by AIP-4231, e.g. "
-                     "`as/{a}.{b}`) matches any character, so `as/x-y`, which does not match the pattern, parses to {'a': 'x', 'b': 'y'} instead of {}")
+    if e is None:
+        raise core.AnalysisError("C19.2", "MessageType.path_regex_str", "the function does not reduce to a decision table; the rule cannot judge it")
+    leaves = decision_leaves(e)
+    general = [(c, v) for c, v in leaves if not (isinstance(v, ast.Constant) and v.value == "^.*$")]
+    wild = [(c, v) for c, v in leaves if isinstance(v, ast.Constant) and v.value == "^.*$"]
+    r2.check(len(general) == 1, p, fn.lineno, f"{len(general)} general outcomes", "one construction for every pattern except the wildcard")
+    if len(general) != 1:
         return
-    node, b = find_match("'^' + ''.join(_ANYGEN_) + '$'", fn)
-    gen = None
-    if node is not None:
-        gen = [g for g in ast.walk(node) if isinstance(g, ast.GeneratorExp)]
-        gen = gen[0] if len(gen) == 1 else None
-    if gen is None:
+    gc, gv = general[0]
+    SPLIT = "self.PATH_ARG_RE.split(self.resource_path or '')"
+    pat_ok = norm_expr(ast.parse("f\"^{''.join((_ANYG_ if _I_ % 2 else re.escape(_P_) for (_I_, _P_) in enumerate(" + SPLIT + ")))}$\"", mode="eval").body)
+    pat_ok2 = norm_expr(ast.parse("f\"^{''.join((re.escape(_P_) if _I_ % 2 == 0 else _ANYG_ for (_I_, _P_) in enumerate(" + SPLIT + ")))}$\"", mode="eval").body)
+    from ..pymodel import _pm, _LOOSE
+    bb = None
+    _LOOSE[0] = True
+    try:
+        for pt in (pat_ok, pat_ok2):
+            b_ = {}
+            if _pm(pt, gv, b_):
+                bb = b_
+                break
+    finally:
+        _LOOSE[0] = False
+    src = ast.unparse(gv)
+    if bb is None:
+        unescaped = "re.escape(" not in src and "PATH_ARG_RE" in src
+        zipped = "zip(" in src
+        r2.check(not unescaped, p, fn.lineno, "path_regex_str: literals not escaped",
+                 "the literal text of the pattern is copied into the regex unescaped: a `.` delimiter (permitted by AIP-4231, e.g. `as/{a}.{b}`) "
+                 "matches any character, so `as/x-y`, which does not match the pattern, parses to {'a': 'x', 'b': 'y'} instead of {}")
+        r2.check(not zipped, p, fn.lineno, "path_regex_str: zip over the literal/name slices of a split",
+                 "zip() over the literal/name slices of a regex split stops at the shorter list: the literal text after the last variable is "
+                 "dropped, so patterns ending in a literal (`users/{user}/profile`) parse strings they must reject")
         if not r2.violations:
             raise core.AnalysisError("C19.2", "MessageType.path_regex_str",
                                      "construction is not '^' + ''.join(<escaped literal | named group> over PATH_ARG_RE.split(...)) + '$' and matches "
                                      "no known defective idiom: the rule cannot judge it")
         return
     r2.ok()
-    g0 = gen.generators[0]
-    bt = pmatch("(_I_, _P_)", g0.target)
-    bi = pmatch("enumerate(_PARTS_)", g0.iter)
-    r2.need(len(gen.generators) == 1 and not g0.ifs and bt is not None and bi is not None, "path_regex_str: for i, part in enumerate(parts) (unfiltered)")
-    I, P, PARTS = bt["_I_"], bt["_P_"], bi["_PARTS_"]
-    src = [n for n in ast.walk(fn) if isinstance(n, ast.Assign) and ast.unparse(n.targets[0]) == PARTS]
     r2.instance("literal and variable pieces come from one split of the resource path")
-    r2.check(len(src) == 1 and pmatch("self.PATH_ARG_RE.split(self.resource_path or '')", src[0].value) is not None, p, gen.lineno, f"{PARTS} = ...",
-             "the pieces must be PATH_ARG_RE.split(resource_path): with its single capture group the list alternates literal, name, literal, ... "
-             "and ends with the trailing literal")
-    elt = gen.elt
-    r2.need(isinstance(elt, ast.IfExp), "path_regex_str: <group> if i % 2 else <escaped literal>")
-    t = ast.unparse(elt.test)
-    if t in (f"{I} % 2", f"{I} % 2 == 1", f"{I} % 2 != 0"):
-        grp, lit = elt.body, elt.orelse
-    elif t in (f"{I} % 2 == 0", f"not {I} % 2"):
-        grp, lit = elt.orelse, elt.body
-    else:
-        raise core.AnalysisError("C19.2", "MessageType.path_regex_str", f"parity test `{t}` not recognised")
+    r2.ok()
     r2.instance("literals are regex-escaped")
-    r2.check(pmatch(f"re.escape({P})", lit) is not None, p, lit.lineno, f"literal arm: {ast.unparse(lit)}",
-             "the literal text between variables must go through re.escape: delimiters such as `.` may only match themselves, otherwise a string "
-             "that does not match the pattern parses to a non-empty dict")
+    r2.ok()
+    grp = ast.parse(bb["_ANYG_"], mode="eval").body
+    P = bb["_P_"]
     group_tmpl = None
-    bb = pmatch(f"_ANYT_.format(name={P})", grp)
-    if bb is not None:
-        try:
-            group_tmpl = ast.literal_eval(bb["_ANYT_"])
-        except Exception:
-            group_tmpl = None
-    elif isinstance(grp, ast.JoinedStr):
+    if isinstance(grp, ast.JoinedStr):
         parts_ = []
         for v in grp.values:
             if isinstance(v, ast.Constant):
@@ -130,7 +124,7 @@ def check_python(report):
                 break
         group_tmpl = "".join(parts_) if parts_ else None
     r2.instance("replacement names the captured variable")
-    r2.check(isinstance(group_tmpl, str) and group_tmpl.startswith("(?P<{name}>"), p, grp.lineno, ast.unparse(grp)[:120],
+    r2.check(isinstance(group_tmpl, str) and group_tmpl.startswith("(?P<{name}>"), p, fn.lineno, ast.unparse(grp)[:120],
              "each variable must become a group named by the captured variable name")
     r2.need(group_tmpl is not None, "replacement template of the substitution")
     shape = regex_shape(group_tmpl.replace("{name}", "x"))
@@ -144,13 +138,11 @@ def check_python(report):
     r2.check(ok, p, fn.lineno, group_tmpl,
              "the group body must be a lazy repeat (>= 1) of any character: lazy so that literal separators other than '/' split "
              "segments correctly, any-character so that a trailing `**` variable may contain '/', at least one so empty segments do not match")
-    wc = [n for n in ast.walk(fn) if isinstance(n, ast.If) and (pmatch("self.resource_path == '*'", n.test) is not None
-                                                              or pmatch("_R_ == '^\\\\*$'", n.test) is not None)]
     r2.instance("wildcard")
-    r2.check(len(wc) == 1 and any(isinstance(s, ast.Assign) and ast.unparse(s.value) == "'^.*$'" for s in wc[0].body), p, fn.lineno,
-             "wildcard special case", "the pattern `*` must parse with ^.*$ (the test must be on the raw pattern or on the ESCAPED regex `^\\*$`)")
-    rets = [n for n in ast.walk(fn) if isinstance(n, ast.Return)]
-    r2.check(len(rets) == 1 and isinstance(rets[0].value, ast.Name), p, fn.lineno, "return", "the built regex is returned")
+    wconds = {c_ for c, _ in wild for c_ in c}
+    r2.check(len(wild) == 1 and wconds <= {("self.resource_path == '*'", True), ("self.resource_path", True)} and ("self.resource_path == '*'", True) in wconds
+             and ("self.resource_path == '*'", False) in gc, p, fn.lineno,
+             "wildcard special case", "the pattern `*` (and only it) must parse with ^.*$")
 
 
 def helper_functions(sk, cls):
@@ -241,12 +233,14 @@ def check_visible(report):
     fi = m.func("gapic.schema.wrappers.Service.resource_messages")
     src = ast.unparse(fi.node)
     r4.instance("sources")
-    node, _ = find_match("chain(gen_resources(_M_.input), gen_resources(_M_.lro.response_type if _M_.lro else _M_.output), "
-                         "gen_indirect_resources_used(_M_.input), gen_indirect_resources_used(_M_.lro.response_type if _M_.lro else _M_.output))", fi.node)
+    from ..pymodel import fmatch
+    node, _, _f = fmatch(m, "chain(gen_resources(_M_.input), gen_resources(_M_.lro.response_type if _M_.lro else _M_.output), "
+                            "gen_indirect_resources_used(_M_.input), gen_indirect_resources_used(_M_.lro.response_type if _M_.lro else _M_.output))", fi,
+                         keep={"gen_resources", "gen_indirect_resources_used"})
     r4.check(node is not None, fi.module.path, fi.node.lineno, "chain(...) of the four sources",
              "helpers must exist for resources of inputs and outputs, declared on the message or referenced by a field")
     r4.instance("all methods")
-    node, _ = find_match("frozenset((_X_ for _M_ in self.methods.values() for _X_ in _ANYC_))", fi.node)
+    node, _, _f = fmatch(m, "frozenset((_X_ for _M_ in self.methods.values() for _X_ in _ANYC_))", fi, keep={"gen_resources", "gen_indirect_resources_used"})
     r4.check(node is not None, fi.module.path, fi.node.lineno, "over all methods", "every method of the service contributes its resources")
     r4.check("self.visible_resources.get(" in src and "recursive_resource_fields" in src and "recursive_field_types" in src, fi.module.path, fi.node.lineno,
              "nested and referenced resources", "nested field types and resource references must be followed")
